@@ -65,6 +65,8 @@ func keyedInstance(ctx context.Context, key string, outcome int) error {
 		err = context.Canceled
 	case iReturnErr:
 		err = errRoutine
+	case iReturnCanceled:
+		err = context.Canceled
 	}
 	vsched.CtrAdd(kActiveA+ki, -1)
 	vsched.CtrSet(kLeft0+id, 1)
@@ -299,7 +301,7 @@ func init() {
 		Doc:   "Keyed / KeyedRefCount built through the other option spellings (choice): WithRetry(constant back-off config), WithRetry(config) followed by WithRetry(nil) (retry disabled again), the WithLogger constructors with WithExitLogger: key a fails on its first run; with retry configured it runs again by quiescence, without it nothing runs it again; RemoveKey / reference release cancels it and nothing starts afterwards",
 		Quick: eng.Bounds{PB: 2}, Thorough: eng.Bounds{PB: 3},
 		Body: func() {
-			how := vsched.Choose(4)
+			how := vsched.Choose(5)
 			le := logrus.NewEntry(logrus.New())
 			le.Logger.SetOutput(io.Discard)
 			conf := &ubackoff.Backoff{BackoffKind: ubackoff.BackoffKind_BackoffKind_CONSTANT, Constant: &ubackoff.Constant{Interval: 1000}}
@@ -317,8 +319,11 @@ func init() {
 			var setKey func()
 			var remove func()
 			var present func() bool
+			if how == 4 {
+				conf = &ubackoff.Backoff{} // every field (also the kind) at its zero value: the default exponential back-off
+			}
 			switch how {
-			case 0, 1:
+			case 0, 1, 4:
 				opts := []keyed.Option[string, int]{keyed.WithRetry[string, int](conf)}
 				if how == 1 {
 					opts = append(opts, keyed.WithRetry[string, int](nil))
@@ -413,7 +418,7 @@ func init() {
 	// K2: removal
 	eng.Register(&eng.Scenario{
 		Name: "keyed-removal", Props: []string{"C07"}, ObsNames: stdObs,
-		Doc:   "Keyed with/without release delay (choice) and retry back-off: key a running or failed (retry timer pending); one of {RemoveKey(a), ClearContext, SyncKeys([])}; timers fire freely; afterwards (and after the removal timer ran) the instance is cancelled and nothing for key a starts again",
+		Doc:   "Keyed with/without release delay (choice) and retry back-off: key a running or failed (retry timer pending); optionally (with a delay) RemoveKey(a) followed by a re-request through SetKey / SyncKeys; then one of {RemoveKey(a), ClearContext, SyncKeys([])}; timers fire freely; afterwards (and after the removal timer ran) the instance is cancelled and nothing for key a starts again",
 		Quick: eng.Bounds{PB: 2}, Thorough: eng.Bounds{PB: 3},
 		Body: func() {
 			delay := vsched.Choose(2) == 1
@@ -435,6 +440,19 @@ func init() {
 				vsched.Settle() // the instance is running / has failed and armed its retry
 			}
 			how := vsched.Choose(3)
+			// with a release delay: optionally the key is first removed, requested again inside the delay
+			// (SetKey / SyncKeys: the pending removal is called off) and only then removed for good
+			if readd := vsched.Choose(3); delay && how != 1 && readd != 0 {
+				// (the delay may expire before the re-request: then the key comes back as a new
+				// incarnation, whose overlap with the old one C07 does not cover)
+				vsched.CtrSet(kReAdded, 1)
+				k.RemoveKey("a")
+				if readd == 1 {
+					k.SetKey("a", false)
+				} else {
+					k.SyncKeys([]string{"a"}, false)
+				}
+			}
 			switch how {
 			case 0:
 				k.RemoveKey("a")
@@ -519,12 +537,13 @@ func init() {
 	})
 	eng.Register(&eng.Scenario{
 		Name: "keyed-retry-ctx", Props: []string{"C07"}, ObsNames: stdObs, RacePB: 2,
-		Doc:   "Keyed with retry back-off: key a fails on its first run; around the failure and the retry timer one or two calls of SetContext(fresh, restart=false) (which leaves a failed routine to its pending retry) mixed with SetKey(a,false); at quiescence key a must be running again, exactly once",
+		Doc:   "Keyed with retry back-off: key a fails on its first run (returning an error, or context.Canceled although its context is live; choice); around the failure and the retry timer one or two calls of SetContext(fresh, restart=false) (which leaves a failed routine to its pending retry) mixed with SetKey(a,false); at quiescence key a must be running again, exactly once",
 		Quick: eng.Bounds{PB: 2}, Thorough: eng.Bounds{PB: 3},
 		Body: func() {
+			firstErr := []int{iReturnErr, iReturnCanceled}[vsched.Choose(2)]
 			k := newKeyed(func(key string, run int) int {
 				if key == "a" && run == 1 {
-					return iReturnErr
+					return firstErr
 				}
 				return iUntilCancelled
 			}, false, true)
